@@ -6,6 +6,7 @@ import (
 	"os"
 	"path/filepath"
 	"sort"
+	"strings"
 	"time"
 )
 
@@ -87,7 +88,7 @@ func writeBaselineFile(pc *PropertyCheck) int {
 	}
 	var names []string
 	for _, o := range pc.Outcomes {
-		if o.Status == "discharged" && !bad[o.Name] && !seen[o.Name] {
+		if o.Status == "discharged" && !bad[o.Name] && !seen[o.Name] && !strings.Contains(o.Name, "/known-defect-") {
 			seen[o.Name] = true
 			names = append(names, o.Name)
 		}
@@ -109,6 +110,8 @@ func writeBaselineFile(pc *PropertyCheck) int {
 func init() {
 	register(&PropSpec{ID: "C06", Level: "proof", Contracts: true,
 		Technique: "contract-based deductive verification: ghost-aggregate delta contracts on the real stablestake keeper functions, VCs from go/ssa discharged by z3/cvc5"})
+	register(&PropSpec{ID: "C12", Level: "proof", Contracts: true,
+		Technique: "contract-based deductive verification: ledger spec functions (committedOf, lockedFor) with type-level contracts (collections bounded), keeper-level delta contracts over ghost aggregates, hook frame checked against its implementation; VCs from go/ssa discharged by z3/cvc5"})
 	register(&PropSpec{ID: "C14", Level: "proof", Contracts: true,
 		Technique: "contract-based deductive verification: strongest postcondition of VestedSoFar against the linear spec function, claim/cancel delta contracts, VCs from go/ssa discharged by z3/cvc5"})
 }
